@@ -132,6 +132,61 @@ var concModel = porcupine.Model{
 			default:
 				return out.err == "InvalidOffset", st
 			}
+		case "stat":
+			// Stat is exempt from the sequential specification (it may count a batch that is still being appended);
+			// it must not fail
+			return out.err == "", st
+		case "gett":
+			// every message carries time 100: ts <= 100 asks for the first live message, ts > 100 for none
+			if len(live) == 0 {
+				return out.err == "NotFound" || out.err == "InvalidOffset", st
+			}
+			if in.off > 100 {
+				return out.err == "NotFound", st
+			}
+			return out.err == "" && len(out.msgs) == 1 && out.msgs[0] == live[0], st
+		case "getk":
+			// the key of a message is "k" + the first letter of its value
+			found := ""
+			for _, m := range live {
+				if m[strings.Index(m, ":")+1:][:1] == in.key {
+					found = m
+				}
+			}
+			if found == "" {
+				return out.err == "NotFound", st
+			}
+			return out.err == "" && len(out.msgs) == 1 && out.msgs[0] == found, st
+		case "consk":
+			if in.off > next {
+				return out.err == "InvalidOffset", st
+			}
+			if out.err != "" {
+				return false, st
+			}
+			if in.off == -1 {
+				return out.next == next && len(out.msgs) == 0, st
+			}
+			var from []string
+			for _, m := range live {
+				if (in.off < 0 || offOf(m) >= in.off) && m[strings.Index(m, ":")+1:][:1] == in.key {
+					from = append(from, m)
+				}
+			}
+			if int64(len(out.msgs)) > in.max || len(out.msgs) > len(from) || !eqStr(out.msgs, from[:len(out.msgs)]) {
+				return false, st
+			}
+			// the cursor never steps over a live message with the key that was not returned, and never beyond NextOffset
+			if out.next > next {
+				return false, st
+			}
+			if len(out.msgs) < len(from) && out.next > offOf(from[len(out.msgs)]) {
+				return false, st
+			}
+			if len(out.msgs) > 0 && out.next <= offOf(out.msgs[len(out.msgs)-1]) {
+				return false, st
+			}
+			return true, st
 		case "del":
 			if out.err != "" {
 				// only a set whose minimum lies before the first segment may be refused: no live message at or
@@ -183,7 +238,7 @@ var concModel = porcupine.Model{
 	DescribeOperation: func(input, output interface{}) string {
 		in := input.(cinput)
 		out := output.(coutput)
-		return fmt.Sprintf("%s(off=%d,max=%d,offs=%v,vals=%v) -> err=%q next=%d msgs=%v", in.op, in.off, in.max, in.offs, in.vals, out.err, out.next, out.msgs)
+		return fmt.Sprintf("%s(off=%d,max=%d,offs=%v,vals=%v,key=%s) -> err=%q next=%d msgs=%v", in.op, in.off, in.max, in.offs, in.vals, in.key, out.err, out.next, out.msgs)
 	},
 }
 
@@ -244,6 +299,30 @@ func doConcOp(l klevdb.Log, in cinput) (out coutput) {
 			o.msgs = []string{msgId(m)}
 		}
 		return o
+	case "stat":
+		_, err := l.Stat()
+		return coutput{err: cls(err)}
+	case "gett":
+		m, err := l.GetByTime(utime(in.off))
+		o := coutput{err: cls(err)}
+		if err == nil {
+			o.msgs = []string{msgId(m)}
+		}
+		return o
+	case "getk":
+		m, err := l.GetByKey([]byte("k" + in.key))
+		o := coutput{err: cls(err)}
+		if err == nil {
+			o.msgs = []string{msgId(m)}
+		}
+		return o
+	case "consk":
+		n, ms, err := l.ConsumeByKey([]byte("k"+in.key), in.off, in.max)
+		o := coutput{err: cls(err), next: n}
+		for _, m := range ms {
+			o.msgs = append(o.msgs, msgId(m))
+		}
+		return o
 	case "del":
 		set := map[int64]struct{}{}
 		for _, x := range in.offs {
@@ -282,12 +361,20 @@ func randInput(rng *rand.Rand, approxNext *atomic.Int64, tid int, seq *int) cinp
 			offs = append(offs, int64(rng.Intn(int(nx)+1)))
 		}
 		return cinput{op: "del", offs: offs}
-	case r < 90:
+	case r < 88:
 		return cinput{op: "next"}
-	case r < 94:
+	case r < 90:
 		return cinput{op: "sync"}
-	default:
+	case r < 92:
 		return cinput{op: "gc"}
+	case r < 94:
+		return cinput{op: "stat"}
+	case r < 96:
+		return cinput{op: "gett", off: []int64{50, 100, 100, 200}[rng.Intn(4)]}
+	case r < 98:
+		return cinput{op: "getk", key: string(rune('a' + rng.Intn(4)))}
+	default:
+		return cinput{op: "consk", key: string(rune('a' + rng.Intn(4))), off: int64(rng.Intn(int(nx)+3)) - 2, max: int64(1 + rng.Intn(4))}
 	}
 }
 
@@ -406,6 +493,8 @@ func runConc(a []string) {
 			fmt.Fprintln(out, "=", concPause(dir, f[1:]))
 		case "cstress":
 			fmt.Fprintln(out, "=", concStress(dir, int(atoi(f[1])), int(atoi(f[2]))))
+		case "cquerystress":
+			fmt.Fprintln(out, "=", concQueryStress(dir, int(atoi(f[1])), int(atoi(f[2]))))
 		case "cgcstress":
 			fmt.Fprintln(out, "=", concGCStress(dir, int(atoi(f[1])), int(atoi(f[2]))))
 		case "csyncack":
@@ -603,6 +692,168 @@ func edgeBatch(dir string) string {
 	}
 	os.RemoveAll(dir)
 	return "ok ops=12 linearizable (batches at the size limit: all or nothing)"
+}
+
+// cquerystress <iterations> <ms>: the lookups against a publisher and a deleter of the oldest messages on a log with
+// both indexes and small segments (segments are sealed, rewritten, rebased and removed under the readers all the time):
+// GetByTime, GetByKey, ConsumeByKey, Get(OffsetOldest/Newest) and Stat may answer NotFound / InvalidOffset, never fail
+// otherwise, and what they return must be what was asked for (time not before ts, byte-equal key).
+func concQueryStress(dir string, iters, ms int) string {
+	for it := 0; it < iters; it++ {
+		os.RemoveAll(dir)
+		os.MkdirAll(dir, 0700)
+		o := klevdb.Options{KeyIndex: true, TimeIndex: true, Rollover: []int64{2048, 600, 16384}[it%3]}
+		if it%4 == 3 {
+			o.Version.NewSegmentsVersion = klevdb.V1
+		}
+		l, err := klevdb.Open(dir, o)
+		if err != nil {
+			return "err open " + errClass(err)
+		}
+		var stop atomic.Bool
+		var clock atomic.Int64
+		done := make(chan string, 8)
+		benign := func(err error) bool {
+			return err == nil || errors.Is(err, klevdb.ErrNotFound) || errors.Is(err, klevdb.ErrInvalidOffset)
+		}
+		keys := []string{"ka", "kb", "kc", "kd"}
+		go func() {
+			for i := 0; !stop.Load(); i++ {
+				n := 1 + i%3
+				msgs := make([]klevdb.Message, n)
+				for j := range msgs {
+					t := clock.Add(1)
+					msgs[j] = klevdb.Message{Time: utime(1000 + t), Key: []byte(keys[(i+j)%4]), Value: []byte(fmt.Sprintf("v%08d", i))}
+				}
+				if _, err := l.Publish(msgs); err != nil {
+					done <- "Publish: " + errClass(err) + ": " + err.Error()
+					return
+				}
+			}
+			done <- ""
+		}()
+		go func() {
+			for !stop.Load() {
+				_, msgs, err := l.Consume(klevdb.OffsetOldest, 8)
+				if err != nil {
+					done <- "Consume(oldest): " + errClass(err) + ": " + err.Error()
+					return
+				}
+				del := map[int64]struct{}{}
+				for i, m := range msgs {
+					if i%3 != 1 { // leave holes, so that segments are rewritten in place and rebased, not only dropped
+						del[m.Offset] = struct{}{}
+					}
+				}
+				if _, _, err := l.Delete(del); err != nil {
+					done <- fmt.Sprintf("Delete(%d oldest): %s: %s", len(del), errClass(err), err.Error())
+					return
+				}
+			}
+			done <- ""
+		}()
+		go func() {
+			for i := 0; !stop.Load(); i++ {
+				ts := int64(0) // before every message: the first live message of the oldest segment
+				if i%3 == 1 {
+					ts = 1000 + clock.Load()/2
+				} else if i%3 == 2 {
+					ts = 1000 + clock.Load()
+				}
+				m, err := l.GetByTime(utime(ts))
+				if !benign(err) {
+					done <- fmt.Sprintf("GetByTime(%d): %s: %s", ts, errClass(err), err.Error())
+					return
+				}
+				if err == nil && m.Time.Before(utime(ts)) {
+					done <- fmt.Sprintf("GetByTime(%d) returned a message of time %d", ts, m.Time.UnixMicro())
+					return
+				}
+				if _, _, err := l.OffsetByTime(utime(ts)); !benign(err) {
+					done <- fmt.Sprintf("OffsetByTime(%d): %s: %s", ts, errClass(err), err.Error())
+					return
+				}
+			}
+			done <- ""
+		}()
+		go func() {
+			for i := 0; !stop.Load(); i++ {
+				k := []byte(keys[i%4])
+				m, err := l.GetByKey(k)
+				if !benign(err) {
+					done <- fmt.Sprintf("GetByKey(%s): %s: %s", k, errClass(err), err.Error())
+					return
+				}
+				if err == nil && string(m.Key) != string(k) {
+					done <- fmt.Sprintf("GetByKey(%s) returned key %s", k, m.Key)
+					return
+				}
+				off := klevdb.OffsetOldest
+				for j := 0; j < 6; j++ {
+					next, ms, err := l.ConsumeByKey(k, off, 4)
+					if !benign(err) {
+						done <- fmt.Sprintf("ConsumeByKey(%s,%d): %s: %s", k, off, errClass(err), err.Error())
+						return
+					}
+					if err != nil {
+						break
+					}
+					for _, x := range ms {
+						if string(x.Key) != string(k) {
+							done <- fmt.Sprintf("ConsumeByKey(%s) returned key %s", k, x.Key)
+							return
+						}
+					}
+					off = next
+				}
+			}
+			done <- ""
+		}()
+		go func() {
+			for i := 0; !stop.Load(); i++ {
+				if _, err := l.Stat(); err != nil {
+					done <- "Stat: " + errClass(err) + ": " + err.Error()
+					return
+				}
+				for _, o := range []int64{klevdb.OffsetOldest, klevdb.OffsetNewest} {
+					if _, err := l.Get(o); !benign(err) {
+						done <- fmt.Sprintf("Get(%d): %s: %s", o, errClass(err), err.Error())
+						return
+					}
+				}
+				if i%32 == 31 {
+					if err := l.GC(0); err != nil {
+						done <- "GC: " + errClass(err) + ": " + err.Error()
+						return
+					}
+				}
+			}
+			done <- ""
+		}()
+		first := ""
+		select {
+		case first = <-done:
+		case <-time.After(time.Duration(ms) * time.Millisecond):
+		}
+		stop.Store(true)
+		for k := 0; k < 5 && first == ""; k++ {
+			select {
+			case r := <-done:
+				first = r
+			case <-time.After(10 * time.Second):
+				first = "Hang: a call has not returned for 10 s after the load stopped"
+			}
+		}
+		if strings.HasPrefix(first, "Hang") {
+			return fmt.Sprintf("err CallFailed iteration=%d %s", it, first)
+		}
+		time.Sleep(20 * time.Millisecond)
+		l.Close()
+		if first != "" {
+			return fmt.Sprintf("err CallFailed iteration=%d %s", it, strings.ReplaceAll(first, "\n", " "))
+		}
+	}
+	return fmt.Sprintf("ok ops=%d linearizable (query stress: no call failed)", iters)
 }
 
 // cpollstress <iterations> <ms>: tailing consumers - one goroutine publishes batches of 1..3 messages, six poll
